@@ -527,7 +527,7 @@ Proof.
     { rewrite Hbody. destruct (bends [x0a] d) eqn:E; [exact E|]. apply TextFacts.bends_spec. exists d. reflexivity. }
     destruct (sread_exact (st_stream st) body rest Hrem) as [Hs1 Hs2].
     unfold read_content. rewrite Hrem, (read_size body rest Hmax), Hs1.
-    rewrite (is_nil_false_ne body Hbne). cbn [pv_truthy].
+    rewrite (is_nil_false_ne body Hbne). cbn [pv_given].
     assert (Hguess : guess_line_endings_bytes body None = Ok (GenText.le_unix, [x0a])).
     { change (guess_line_endings_bytes body None) with (guess_line_endings_bytes body (Some (B "ascii"))).
       rewrite Hb2. apply guess_json_bytes. }
